@@ -377,9 +377,10 @@ def salvage_bundle(f):
     cnt = pay[6] | (pay[7] << 8)
     t0 = pay[8] | (pay[9] << 8); l0 = pay[10] | (pay[11] << 8)
     t1 = pay[12] | (pay[13] << 8); l1 = pay[14] | (pay[15] << 8)
-    if cnt != 2 or t0 != 0 or l0 != 0 or t1 != 0xB2 or 16 + l1 > len(pay):
+    if cnt != 2 or t0 != 0 or l0 != 0 or t1 != 0xB2:
         return []
-    body = pay[16:16 + l1]
+    # (a data item that declares more than the frame holds is bounded by the frame: the same leniency as lenient_only grants)
+    body = pay[16:16 + min(l1, len(pay) - 16)]
     if body[:6] == b'\x52\x02\x20\x06\x24\x01':
         if len(body) < 10:
             return []
@@ -429,20 +430,30 @@ def clean_images(frames_flags):
     """images reachable by processing, whole and in order, a prefix of the frames, where frames the reference rejects may or
     may not be accepted by cpppo but must not change a tag: only reference-accepted frames are applied"""
     imgs = []
-    applied = []
     r = run_stream(b'')
     imgs.append(r['image'])
+    # the requests salvaged from a frame the reference rejects MAY have been executed (cpppo executes the members it can parse) or not
+    # (it refused the frame as a whole): both histories are carried along
+    histories = [[]]
     for f, flag in frames_flags:
         if flag == 'ok-write':
-            todo = [f]
+            histories = [h + [f] for h in histories]
+            new = histories
         elif flag == 'reject':
             todo = salvage_bundle(f)
+            if not todo:
+                continue
+            new = []
+            for h in histories:
+                for k in range(1, len(todo) + 1):
+                    new.append(h + todo[:k])
+            histories = (histories + new)[:12]
         else:
-            todo = []
-        for g in todo:
-            applied.append(g)
-            rr = run_stream(b''.join([c02.register_frame()] + applied))
-            imgs.append(rr['image'])
+            continue
+        for h in new[:12]:
+            rr = run_stream(b''.join([c02.register_frame()] + h))
+            if rr['image'] not in imgs:
+                imgs.append(rr['image'])
     return imgs
 
 
